@@ -345,11 +345,26 @@ theorem partialStep_id {nd : Bool} {ftp : List (Bytes × List Bytes)} {rel : Byt
   · simp [h]
   · subst h; simp [mapPartialPath_nil]
 
+theorem partialStepF_id {fs : FS} {src : Option Bytes} {nd : Bool} {ftp : List (Bytes × List Bytes)} {rel : Bytes}
+    (h : nd = false ∨ isPartialExt rel = false ∨ ftp = [] ∨ namesFile fs src rel = true) :
+    partialStepF fs src nd ftp rel = rel := by
+  unfold partialStepF
+  rcases h with h | h | h | h
+  · exact partialStep_id (Or.inl (by simp [h]))
+  · exact partialStep_id (Or.inr (Or.inl h))
+  · exact partialStep_id (Or.inr (Or.inr h))
+  · exact partialStep_id (Or.inl (by simp [h]))
+
+/-- when the path does not name a file below the source dir the fix changes nothing -/
+theorem partialStepF_eq {fs : FS} {src : Option Bytes} {nd : Bool} {ftp : List (Bytes × List Bytes)} {rel : Bytes}
+    (h : namesFile fs src rel = false) : partialStepF fs src nd ftp rel = partialStep nd ftp rel := by
+  unfold partialStepF; simp [h]
+
 theorem resolveKeyJ_eq {cfg : Cfg} {fs : FS} {nd : Bool} {ftp : List (Bytes × List Bytes)} {key : Bytes}
     (h : nd = false ∨ isPartialExt (keyPath cfg key) = false ∨ ftp = []) :
     resolveKeyJ cfg fs nd ftp key = resolveKey cfg fs key := by
   unfold resolveKeyJ resolveKey
-  rw [partialStep_id h]
+  rw [partialStepF_id (h.elim Or.inl fun h => h.elim (fun h => Or.inr (Or.inl h)) fun h => Or.inr (Or.inr (Or.inl h)))]
 
 theorem rewriteKeyJ_eq {cfg : Cfg} {fs : FS} {nd : Bool} {ftp : List (Bytes × List Bytes)}
     {kc : Bytes × Cov} (h : nd = false ∨ isPartialExt (keyPath cfg kc.1) = false ∨ ftp = []) :
@@ -462,7 +477,7 @@ theorem rewriteKeyJ_some_iff (cfg : Cfg) (fs : FS) (nd : Bool) (ftp : List (Byte
 
 theorem resolveKeyJ_some {cfg : Cfg} {fs : FS} {nd : Bool} {ftp : List (Bytes × List Bytes)}
     {key a r : Bytes} (h : resolveKeyJ cfg fs nd ftp key = .ok (some (a, r))) :
-    ∃ r0, getAbsPath fs cfg.sourceDir (partialStep nd ftp (keyPath cfg key)) = .ok (some (a, r0)) ∧
+    ∃ r0, getAbsPath fs cfg.sourceDir (partialStepF fs cfg.sourceDir nd ftp (keyPath cfg key)) = .ok (some (a, r0)) ∧
       finalRel r0 = some r := by
   unfold resolveKeyJ at h
   split at h
@@ -680,7 +695,7 @@ theorem fileToPaths_ignore_append (fs : FS) (ord : List (List Bytes)) (cfg : Cfg
 
 /-- the path handed to `get_abs_path` for one key of a map with the keys `keys` -/
 def mappedPath (cfg : Cfg) (fs : FS) (ord : List (List Bytes)) (keys : List Bytes) (key : Bytes) : Bytes :=
-  partialStep (needed cfg fs keys) (fileToPaths fs ord cfg keys) (keyPath cfg key)
+  partialStepF fs cfg.sourceDir (needed cfg fs keys) (fileToPaths fs ord cfg keys) (keyPath cfg key)
 
 /-- '/'-separated real names, optionally after a root '/' (the same proposition as
 `Props.C11.NormalForm`, which is declared in a file that imports this one) -/
